@@ -130,7 +130,7 @@ CHECKS = {
         note='The 1e-7 degree rounding / 2 cm figure and "the polygon form encloses what the analytic test accepts outside the chord error" are '
              'validated numerically only (exact even-odd test on the generated ring vs an independent oracle); contains_* is judged outside a '
              '1e-6 relative boundary band. Every implementation vertex must be a correct 1e-7 degree rounding of the model un-rounded vertex.',
-        technique='Lean 4 proof over a generic numeric class (real instance for proofs, Float instance in the driver) + differential correspondence + independent geodesic oracle',
+        technique='Lean 4 proof over a generic numeric class (real instance for proofs, Float instance in the driver) + source translator (the analytic membership tests of circle, ellipse and ring regenerated as Lean over the same numeric class and proved equal to the model) + differential correspondence + independent geodesic oracle',
         design='§6 C03'),
     'C07': dict(
         text='Lean 4 theorems over the real-number instance of the very formulas that are executed (as binary64) against calc.py: haversine is '
